@@ -8,6 +8,7 @@ COMPONENTS = {
     "des": "comp_ops:Des",
     "variant": "comp_ops:Variant",
     "surv": "comp_surv",
+    "repl": "comp_repl",
 }
 
 TRUSTED_BASE = [
@@ -83,5 +84,12 @@ PROPERTIES = {
         "rule": SURV_RULE,
         "explanation": "theorems fillLoop_eq_frontLoop, unconstrained_eq_rnc, feasible_part_eq_rnc, feasible_before_infeasible, fill_rank_respect, last_front_cut_by_cv, constr_length; correspondence: survivors equal the model's given the recorded oracles, the violation-space NDS is checked against IsFronts on [max(G,0), |H|] recomputed by the model; the oracle re-runs RankAndCrowding under the same seed",
         "assumptions": ["oracle contracts hold - evaluated on every record"],
+    },
+    "C02": {
+        "components": [("repl", 900, 30000)],
+        "rule": "parent/offspring pairs of 1..10 slots on grid-valued decision vectors (exact duplicates between offspring and against members), objectives rounded to a grid (exact ties), 0..2 inequality and 0..1 equality constraints with shifted feasibility, the operator object fresh / the shared default of DE() / used before on a problem of the other kind; distinct = hash; non-trivial = some slots replaced and some kept",
+        "explanation": "theorems improves_iff, isDuplicate_iff, slotChoice_get, replaceMaskAux_get, replaceStep_perm/_length/_sorted, replaceStep_no_worse, best_monotone (induction over any sequence of generations with universally quantified offspring); correspondence: replacement mask and next population (object identities, order) equal the model's",
+        "assumptions": ["pymoo's feasibility convention CV >= 0, feasible <=> CV <= 0 (checked on every record)",
+                        "X-equality stands for DefaultDuplicateElimination(epsilon=0) (squared differences that underflow are not generated)"],
     },
 }
